@@ -130,7 +130,7 @@ inductive Label
   -- workers
   | wRecv | wExitClosed | wExitCtx | wMapOk (i : Nat) | wMapErr (i : Nat) | wSend (it : Item) | wDrop (it : Item)
   -- consumer
-  | cCheck | cSelCtx | cRecv | cClosed | cNext | cRepull | cStop | cFail | cClose0 | cCloseW | cCloseP | cClose1 | cClose2
+  | cOpenFail | cCheck | cSelCtx | cRecv | cClosed | cNext | cRepull | cStop | cFail | cClose0 | cCloseW | cCloseP | cClose1 | cClose2
   -- environment
   | cancel
   deriving DecidableEq, Repr
@@ -199,6 +199,12 @@ def step (cfg : Cfg) (s : St) : Label → Option St
   | .wDrop it =>   -- :89 / :101 / :107 ctx.Done branch: return
     if it ∈ s.wHold ∧ s.ctx1 then some { s with wHold := s.wHold.erase it, wExit := s.wExit + 1 } else none
   /- consumer ------------------------------------------------------------------------------------------------ -/
+  | .cOpenFail =>  -- a lifecycle element placed AFTER the concurrent map fails to open (shpan_stream.go:317-331, error or
+                   -- panic): doOpenStream closes the already opened elements — the concurrent map's close sequence —
+                   -- cancels the materialisation ctx and the terminal returns the error without ever pulling
+    if s.cons = .check ∧ s.delivered = [] then
+      some { s with cons := .close0, res := some .errOther, stopped := true }
+    else none
   | .cCheck =>     -- shpan_stream.go:134-138
     if s.cons = .check then
       if s.ctx0 then some { s with cons := .close0, res := some .errCtx } else some { s with cons := .sel }
